@@ -16,7 +16,7 @@ import (
 	"pgregory.net/rapid"
 )
 
-const c03RuleText = "1-4 policies x 1-4 path stanzas as HCL text through the real ParseACLPolicy (patterns over literals a/bb/ccc, '+' segments, trailing '*', '/*', mid-segment glob, trailing '/', duplicates across policies; capability subsets incl. deny/sudo; half of the cases with allowed/denied/required parameters, min/max wrapping TTL, pagination_limit, expiration; 1 in 5 cases with policies and requests in root and ns1/), one request (path derived from a pattern or random; parameters; wrap TTL) decided for all 7 operations against a reference evaluator of policies.mdx, then every permutation of the policy list, Capabilities(), and one extra deny-only policy; non-trivial = >=2 different patterns match the request path, or the winning pattern is written in >=2 stanzas, or a parameter/pagination/TTL rule decided"
+const c03RuleText = "1-4 policies x 1-4 path stanzas as HCL text through the real ParseACLPolicy (patterns over literals a/bb/ccc, '+' segments, trailing '*', '/*', mid-segment glob, trailing '/', duplicates across policies; capability subsets incl. deny/sudo; half of the cases with allowed/denied/required parameters, min/max wrapping TTL, pagination_limit, expiration; 1 in 5 cases with policies and requests in root and ns1/), one request (path derived from a pattern or random; parameters; wrap TTL) decided for all 7 operations against a reference evaluator of policies.mdx, then every permutation of the policy list, Capabilities(), and one extra deny-only policy; non-trivial = >=2 different patterns match the request path, or the winning pattern is written in >=2 stanzas, or a parameter/pagination/TTL rule decided, or the list/scan fallback order decided. PINNED READING: for list/scan on a path with trailing slash the order exact(path) > exact(path without slash) > non-exact(path) > non-exact(path without slash) is asserted (exact wins over any glob, also in the fallback); classes fallback-order-decides:* count where another order would pick another pattern"
 
 var (
 	c03Ops     = []string{"create", "read", "update", "delete", "list", "scan", "patch"}
@@ -51,6 +51,11 @@ func c03GenPattern(t *rapid.T, pool []string, nsMode bool, polNS string, reqFull
 	if kind < 8 && strings.HasPrefix(reqFull, polNS) && len(reqFull) > len(polNS) {
 		base := strings.TrimPrefix(reqFull, polNS)
 		hadSlash := strings.HasSuffix(base, "/")
+		if hadSlash && rapid.IntRange(0, 4).Draw(t, "exactNoSlash") == 0 {
+			// the exact rule for the path without its trailing slash: with a glob elsewhere this is the
+			// list/scan fallback-order conflict (exact without slash vs non-exact with slash)
+			return strings.TrimSuffix(base, "/")
+		}
 		segs := strings.Split(strings.TrimSuffix(base, "/"), "/")
 		k := rapid.IntRange(1, len(segs)).Draw(t, "keep")
 		parts := make([]string, k)
@@ -412,13 +417,14 @@ func c03CheckCaseWith(tb verifx.TB, rec *verifx.Recorder, c c03Case, ix *c03Inde
 
 	nt := false
 	class := "no-match"
-	rank := map[string]int{"no-match": 0, "single-pattern": 1, "exact-over-nonexact": 2, "priority-among-nonexact": 3, "list-fallback": 4, "merged-union": 5, "merged-deny": 6, "constraint-decided": 7}
+	rank := map[string]int{"no-match": 0, "single-pattern": 1, "exact-over-nonexact": 2, "priority-among-nonexact": 3, "list-fallback": 4, "merged-union": 5, "merged-deny": 6, "constraint-decided": 7, "list-fallback-order-decides": 8}
 	bump := func(cl string) {
 		if rank[cl] > rank[class] {
 			class = cl
 		}
 	}
 	first := make([]c03Got, len(c03Ops))
+	fallbackOrder := ""
 	full := c.Req.NS + c.Req.Path
 	for oi, op := range c03Ops {
 		got := c03Ask(acl0, c.Req, op)
@@ -429,6 +435,10 @@ func c03CheckCaseWith(tb verifx.TB, rec *verifx.Recorder, c c03Case, ix *c03Inde
 		}
 		ref := ix.Decide(c.Req, op)
 		rec.Class("decision:"+ref.V.String()+":"+ref.Why, 1)
+		if ref.FallbackOrder != "" {
+			rec.Class("fallback-order-decides:"+op+":"+ref.FallbackOrder, 1)
+			fallbackOrder = ref.FallbackOrder
+		}
 		if ref.NMatch >= 2 || ref.NGroup >= 2 || ref.Constraint {
 			nt = true
 		}
@@ -454,13 +464,13 @@ func c03CheckCaseWith(tb verifx.TB, rec *verifx.Recorder, c c03Case, ix *c03Inde
 		switch ref.V {
 		case c03Allow:
 			if !got.Allowed {
-				rec.Violation(tb, "denied-but-docs-allow:"+ref.Why, detail(map[string]any{"op": op, "winning_pattern": ref.Pattern}),
+				rec.Violation(tb, "denied-but-docs-allow:"+ref.Why+c03OrderTag(ref), detail(map[string]any{"op": op, "winning_pattern": ref.Pattern}),
 					"%s %q: ACL denies, documented semantics allow (winning pattern %q, %d stanza(s), rule %s)", op, full, ref.Pattern, ref.NGroup, ref.Why)
 				return
 			}
 		case c03Deny:
 			if got.Allowed {
-				rec.Violation(tb, "allowed-but-docs-deny:"+ref.Why, detail(map[string]any{"op": op, "winning_pattern": ref.Pattern}),
+				rec.Violation(tb, "allowed-but-docs-deny:"+ref.Why+c03OrderTag(ref), detail(map[string]any{"op": op, "winning_pattern": ref.Pattern}),
 					"%s %q: ACL allows, documented semantics deny (winning pattern %q, %d stanza(s), rule %s)", op, full, ref.Pattern, ref.NGroup, ref.Why)
 				return
 			}
@@ -469,12 +479,12 @@ func c03CheckCaseWith(tb verifx.TB, rec *verifx.Recorder, c c03Case, ix *c03Inde
 		if ref.PatternClear && ref.V != c03Unclear {
 			sudo := ref.Caps["sudo"] && !ref.Deny
 			if got.RootPrivs && !sudo {
-				rec.Violation(tb, "rootprivs-without-sudo", detail(map[string]any{"op": op, "winning_pattern": ref.Pattern}),
+				rec.Violation(tb, "rootprivs-without-sudo"+c03OrderTag(ref), detail(map[string]any{"op": op, "winning_pattern": ref.Pattern}),
 					"%s %q: RootPrivs reported but the winning pattern %q does not grant sudo (caps %v)", op, full, ref.Pattern, c03Keys(ref.Caps))
 				return
 			}
 			if got.Allowed && sudo && !got.RootPrivs {
-				rec.Violation(tb, "sudo-not-reported", detail(map[string]any{"op": op, "winning_pattern": ref.Pattern}),
+				rec.Violation(tb, "sudo-not-reported"+c03OrderTag(ref), detail(map[string]any{"op": op, "winning_pattern": ref.Pattern}),
 					"%s %q: allowed by pattern %q which grants sudo, but RootPrivs is false", op, full, ref.Pattern)
 				return
 			}
@@ -532,14 +542,18 @@ func c03CheckCaseWith(tb verifx.TB, rec *verifx.Recorder, c c03Case, ix *c03Inde
 	}
 	capsSorted := append([]string(nil), capsGot...)
 	sort.Strings(capsSorted)
-	if want, pat, ok := ix.CapsFor(full); ok {
-		if strings.Join(want, ",") != strings.Join(capsSorted, ",") {
-			rec.Violation(tb, "capabilities-differ-from-docs", detail(map[string]any{"winning_pattern": pat}),
-				"Capabilities(%q) = %v, documented semantics give %v (pattern %q)", full, capsSorted, want, pat)
-			return
+	want, pat, capOrder := ix.CapsFor(full)
+	if capOrder != "" {
+		rec.Class("fallback-order-decides:capabilities:"+capOrder, 1)
+	}
+	if strings.Join(want, ",") != strings.Join(capsSorted, ",") {
+		sig := "capabilities-differ-from-docs"
+		if capOrder != "" {
+			sig = "capabilities-list-fallback-order:" + capOrder
 		}
-	} else {
-		rec.Class("capabilities:unclear-list-fallback-order", 1)
+		rec.Violation(tb, sig, detail(map[string]any{"winning_pattern": pat}),
+			"Capabilities(%q) = %v, documented semantics give %v (pattern %q)", full, capsSorted, want, pat)
+		return
 	}
 	if constraintFree {
 		bare := c03Req{NS: c.Req.NS, Path: c.Req.Path}
@@ -559,6 +573,10 @@ func c03CheckCaseWith(tb verifx.TB, rec *verifx.Recorder, c c03Case, ix *c03Inde
 				return
 			}
 		}
+	}
+	if fallbackOrder != "" || capOrder != "" {
+		bump("list-fallback-order-decides")
+		nt = true
 	}
 	if light {
 		rec.Case(class, nt, verifx.Digest(fmt.Sprint(c.Pols), fmt.Sprint(c.Req)), func() any { return c03Describe(c) })
@@ -650,6 +668,13 @@ func c03CheckCaseWith(tb verifx.TB, rec *verifx.Recorder, c c03Case, ix *c03Inde
 		}
 	}
 	rec.Case(class, nt, verifx.Digest(fmt.Sprint(c.Pols), fmt.Sprint(c.Req)), func() any { return c03Describe(c) })
+}
+
+func c03OrderTag(ref c03Ref) string {
+	if ref.FallbackOrder != "" {
+		return ":list-fallback-order"
+	}
+	return ""
 }
 
 func c03Bitmap(acl *ACL, req c03Req) uint32 {
